@@ -34,7 +34,18 @@ const REGEXES: &[&str] = &[
     r"^x(?P<n>\d*)y(z)?$", ".*", "^$", "(?i)ABC", r"^(?P<w>\w+) (?P<v>\w+)?$", "b", r"(?:)",
     // unanchored, with groups, matching at a byte offset > 0 (also behind multi-byte characters)
     r"(\d+) (b)", r"(?P<n>\d+)y(z)?", r"(d|c)$", r"(b)(c)?$", r"(?P<t>l+)o( )",
+    // compiled with `RegexBuilder` flags (see `build`): the pattern TEXT alone does not say what they match
+    "^abc$", "^a b$", "^(A)(b)?c$", "^x y$",
 ];
+/// patterns of the pool that are compiled with a `RegexBuilder` flag: 1 = case_insensitive, 2 = ignore_whitespace
+const FLAGGED: &[(&str, u8)] = &[("^abc$", 1), ("^a b$", 2), ("^(A)(b)?c$", 1), ("^x y$", 2)];
+fn build(r: &str) -> Regex {
+    match FLAGGED.iter().find(|(p, _)| *p == r).map(|(_, f)| *f) {
+        Some(1) => regex::RegexBuilder::new(r).case_insensitive(true).build().unwrap(),
+        Some(_) => regex::RegexBuilder::new(r).ignore_whitespace(true).build().unwrap(),
+        None => Regex::new(r).unwrap(),
+    }
+}
 const TEXTS: &[&str] = &["a 12 b", "aab", "áád", "ab", "xy", "x12yz", "", "abc", "ABC", "b", "áác", "hello ", "a"];
 const LOCS: &[Option<Location>] = &[
     None,
@@ -74,7 +85,7 @@ pub fn gen_find(rng: &mut Rng, idx: usize) -> Case {
     // key numbering = position in the real `Ord` order
     let mut keys: Vec<(HashableRegex, Option<Location>)> = Vec::new();
     for (_, r, l, _) in &regs {
-        let k = (HashableRegex::from(Regex::new(r).unwrap()), LOCS[*l]);
+        let k = (HashableRegex::from(build(r)), LOCS[*l]);
         if !keys.contains(&k) {
             keys.push(k);
         }
@@ -86,7 +97,7 @@ pub fn gen_find(rng: &mut Rng, idx: usize) -> Case {
 
     let mut coll = Collection::<MW>::new();
     for (k, r, l, f) in &regs {
-        let re = Regex::new(r).unwrap();
+        let re = build(r);
         coll = match k {
             StepType::Given => coll.given(LOCS[*l], re, FNS[*f]),
             StepType::When => coll.when(LOCS[*l], re, FNS[*f]),
@@ -114,7 +125,7 @@ pub fn gen_find(rng: &mut Rng, idx: usize) -> Case {
     };
 
     let keyinfo = show_list(&keys, |(hr, l)| {
-        let re = Regex::new(hr.as_str()).unwrap();
+        let re = build(hr.as_str());
         let caps = re.captures(text).map(|c| {
             let groups: Vec<Option<String>> =
                 (1..c.len()).map(|i| c.get(i).map(|m| m.as_str().to_owned())).collect();
